@@ -74,4 +74,22 @@ CLAIMS["C19"] = {
     "note": "Trusted: TLC, pointer->id projection. Witness form = recursive order is model-checked for small trees and holds by induction beyond. Early stop is C18.",
     "technique": T,
 }
+CLAIMS["C12"] = {
+    "text": "TLC checks on every string <= 4 (thorough <= 6) over aAcCgGtTnN + a foreign byte that the transcribed loops of ReverseComplement and CanonicalSubsequences equal the property-level definitions, and Involution, AppendOnly, CasePreserving, Count, StrandSymmetry; every recorded real call (all strings <= 5/6, every k, dst prefixes with/without spare capacity, all 256 bytes alone and embedded, seeded long inputs incl. ties) is judged by Trace_Seq, incl. src/dst unchanged, the function applied twice, the pair form.",
+    "ref": "DESIGN.md section 6 C12",
+    "note": "Bounded: exhaustive to the stated lengths, random beyond; 'untouched' = before/after equality; aliased dst/src not exercised; out-of-domain inputs to CanonicalSubsequences not judged.",
+    "technique": T,
+}
+CLAIMS["C13"] = {
+    "text": "TLC checks DNATo2Bit's transcription (di, shift, |=) and the dnaFrom2bit table against arithmetic Pack/Unpack for all DNA strings <= 5 (thorough <= 7) and all packed strings <= 2 (thorough <= 3) bytes, plus PackUnpack, UnpackPack, MsbFirst, NtoiIton; recorded real calls (all strings <= 5/7, 256 bytes at every position mod 4, all 256 + 65 536 packed strings with repack, all 256 Ntoi, dst prefixes, long inputs) are judged by Trace_Seq.",
+    "ref": "DESIGN.md section 6 C13",
+    "note": "Iton outside 0..3 not judged; exhaustive only to the stated lengths.",
+    "technique": T,
+}
+CLAIMS["C14"] = {
+    "text": "TLC checks the transcribed codonToAmino literal, case folding, map-miss panic, repaired frame slicing and aminoToName keys against the NCBI table-1 string in TCAG order (all 64 codons x 8 case patterns, strings <= 4/6 over 10 bytes, <= 7/9 over 4), ConcatLaw, FrameLaw, NameDomain; recorded real calls (512 spellings, all strings <= 4/6, 256 bytes per codon position, concatenation triples, frames for every length 0..40/300 and long, all 256 AminoName bytes) are judged by Trace_Amino.",
+    "ref": "DESIGN.md section 6 C14",
+    "note": "The NCBI string in Amino.tla is trusted (degeneracy counts and stops asserted); AminoName texts only checked non-empty; frames with non-ACGT bases not judged.",
+    "technique": T,
+}
 PENDING = {}
